@@ -35,20 +35,54 @@ RULE = ("random API histories (12-30 ops: create group/points/data with explicit
 
 
 def generate(rng, tier):
+    from props import wsext
+
     n = 60 if tier == "quick" else 1500
-    return [{"ops": W.gen_history(rng.fork(i), rng.range(12, 30))} for i in range(n)]
+    cases = [{"ops": W.gen_history(rng.fork(i), rng.range(12, 30))} for i in range(n)]
+    # oracle-only stream: many classes, data kinds, property groups, shared types, multi-child removal, copies, two workspaces
+    m = 40 if tier == "quick" else 1000
+    cases += [{"ext": True, "ops": wsext.gen_ext_history(rng.fork(5000 + i), rng.range(20, 36))} for i in range(m)]
+    return cases
 
 
 def drive_one(case, work):
+    if case.get("ext"):
+        from props import wsext
+
+        return wsext.run_ext_history(case["ops"], work, "c01x")
     return W.run_history(case["ops"], work, "c01")
 
 
 def case_term(case, obs):
+    if case.get("ext"):
+        return None  # outside the Coq model: evaluated by the oracle only
     return W.history_case_term(case["ops"], obs["steps"])
 
 
 def model_term(case):
+    if case.get("ext"):
+        return None
     return "trace init %s" % W.clist(W.cop(o) for o in case["ops"])
+
+
+KNOWN_EXT_ERRORS = ("KeyError:\"Unable to synchronously open object (object 'PropertyGroups' doesn't exist)",)  # C05 finding pg-listing-keyerror
+
+
+def oracle_ext(case, obs):
+    fails = []
+    for i, (op, st) in enumerate(zip(case["ops"], obs["steps"])):
+        oc = str(st["outcome"])
+        if oc.startswith("error") and not any(k in oc for k in KNOWN_EXT_ERRORS):
+            if "KeyError:UUID(" in oc and op["op"] == "copy":
+                continue  # C05 finding copy-fails-dangling-member (a property group still lists a removed data set)
+            fails.append({"key": "ext-unexpected-exception", "what": f"op {i} {op}: {oc[:200]}"})
+            break
+    for k, per_ws in enumerate(obs["reopen_diffs"]):
+        for w, d in enumerate(per_ws):
+            if d:
+                fails.append({"key": "ext-reopen-differs", "what": f"re-open #{k}, workspace {w}: {str(d)[:500]}"})
+                return fails
+    return fails
 
 
 def _tree(rows):
@@ -59,6 +93,8 @@ def oracle(case, obs):
     """Property text: at every close + fresh open, the re-opened tree equals the tree the live workspace showed."""
     if "crash" in obs:
         return [{"key": "driver-crash", "what": obs["crash"][:300]}]
+    if case.get("ext"):
+        return oracle_ext(case, obs)
     fails = []
     ops, steps = case["ops"], obs["steps"]
     for i, (op, st) in enumerate(zip(ops, steps)):
@@ -105,12 +141,14 @@ def _closure(keys, before, after):
 
 
 def nontrivial(case, obs):
-    return any(o["op"] in ("rm_ws", "rm_parent") for o in case["ops"])
+    return any(o["op"] in ("rm_ws", "rm_parent", "rm_children", "copy", "pg") for o in case["ops"])
 
 
 def histogram(cases, obs):
-    h = {"ops": {}, "outcomes": {}, "length": {}, "reuse_histories": 0}
+    h = {"ops": {}, "outcomes": {}, "length": {}, "reuse_histories": 0, "ext_histories": sum(1 for c in cases if c.get("ext"))}
     for c, o in zip(cases, obs):
+        if not isinstance(o, dict):
+            continue
         L = str(len(c["ops"]) // 5 * 5)
         h["length"][L] = h["length"].get(L, 0) + 1
         seen = set()
